@@ -4,6 +4,7 @@
   unparse  every source file rewritten by ast.unparse (formatting, comments and line numbers change)
   rename   additionally every function-local variable is renamed (x -> x_rn), consistently through nested closures;
            parameters, globals, imports, except-names and class-body names are left alone.  The repository's suite passes on it.
+  docstring every function / class without a docstring gets one (the first statement of every body changes)
 Remove <dest> after use."""
 import ast
 import pathlib
@@ -85,6 +86,13 @@ def main():
         if mode == "rename":
             for fn in outer_functions(tree.body):
                 n += process_function(fn)
+        if mode == "docstring":
+            # every function and class without a docstring gets one (first statement of the body changes)
+            for node in ast.walk(tree):
+                if isinstance(node, (ast.FunctionDef, ast.AsyncFunctionDef, ast.ClassDef)) and ast.get_docstring(node) is None:
+                    node.body.insert(0, ast.Expr(value=ast.Constant(value=f"Documentation of {node.name}.")))
+                    n += 1
+            ast.fix_missing_locations(tree)
         p.write_text(ast.unparse(tree) + "\n")
     print(f"{mode}: wrote {dest} ({n} locals renamed)")
 
